@@ -1005,6 +1005,7 @@ func c14PillarVsSync(r *simrt.Run, w *nomsim.World, wl *nomsim.Workload) {
 				}
 				var idx int
 				var ierr error
+				own0, tail := f.A.OwnMomentums, batch[len(batch)-1].Momentum
 				sc.Go("pillar", func() { f.A.ProduceAt(ts) })
 				sc.Go("sync", func() { idx, ierr = f.A.Bridge.InsertChain(batch) })
 				panics := sc.Run()
@@ -1019,6 +1020,11 @@ func c14PillarVsSync(r *simrt.Run, w *nomsim.World, wl *nomsim.Workload) {
 				r.Logf("race at slot %d: A height %d, batch [%d..%d] -> idx=%d err=%v, own momentum err=%v, %d steps", s, f.A.Height(), base+1, f.B.Height(), idx, ierr != nil, f.A.LastOwnMomentumErr != nil, sc.Steps)
 				for _, st := range sc.Trace {
 					r.Logf("sched %s", st)
+				}
+				// a node leaves its chain only for a strictly longer one: if its own momentum went in and it
+				// nevertheless ends on the delivered branch, that branch must end above the own momentum
+				if f.A.OwnMomentums > own0 && f.A.Frontier().Hash == tail.Hash && tail.Height <= f.A.LastOwnMomentum.Height {
+					r.Fail("adopt-rule", "not-strictly-longer-under-race", "node A inserted its own momentum at height %d and then left it for a delivered branch ending at height %d (schedule of %d steps)", f.A.LastOwnMomentum.Height, tail.Height, sc.Steps)
 				}
 				// A must hold one consistent chain: linked, and equal to a node that applied only that chain
 				checkLinkage(r, f.A, 40)
